@@ -158,7 +158,7 @@ PROPS = {'C18': {'title': 'Inflights window is a bounded FIFO under resizing',
          'cone': {'P': [], 'S': ['raft']},
          'bounded': ["mon_cluster --prop C03: committed prefixes are contained in every later leader's log; one value per applied index"]},
  'C06': {'title': 'Promises survive crashes: persist-before-send, one vote per term',
-         'modules': ['top', 'prelude', 'pb', 'inflights', 'progress', 'quorum', 'tracker', 'log_unstable', 'storage_trait', 'raft_log', 'raft', 'raw_node'],
+         'modules': ['top', 'prelude', 'pb', 'inflights', 'progress', 'quorum', 'tracker', 'log_unstable', 'storage_trait', 'raft_log', 'raft', 'raw_node', 'memstorage'],
          'body': {'S': []},
          'modes': ['S'],
          'claim': 'PARTIAL (per call: term monotone, one vote per term, restart state, release discipline of Ready)',
@@ -172,7 +172,7 @@ PROPS = {'C18': {'title': 'Inflights window is a bounded FIFO under resizing',
                          'Configuration::to_conf_state, Raft::{new, check_quorum_active, commit_apply, has_unapplied_conf_changes}, RaftCore::try_batching, '
                          'ReadOnly::* (abstract model of the pending-read table)',
                          'specified helpers for std / protobuf calls (R9) and the three cut texts (R10) listed in the evidence file'],
-         'cone': {'S': ['raft', 'raw_node']},
+         'cone': {'S': ['raft', 'raw_node', 'memstorage']},
          'bounded': ['mon_c06: every message checked at release time against the durable hard state (sync + async readies)']},
  'C16': {'title': 'PreVote + CheckQuorum: a node that cannot win does not disrupt the cluster',
          'modules': ['top', 'prelude', 'pb', 'inflights', 'progress', 'quorum', 'tracker', 'log_unstable', 'storage_trait', 'raft_log', 'raft'],
